@@ -71,7 +71,7 @@ class FakeFile:
 class WriterHist(Engine):
     name = "writerhist"
     props = ("C38",)
-    nruns = {"quick": 2500, "thorough": 300000}
+    nruns = {"quick": 5000, "thorough": 300000}
     budgets = {"quick": 40.0, "thorough": 540.0}
     rule = (
         "script = problem whose identifiers are adversarial (quantified conditions whose bound variables are named like objects or "
